@@ -32,11 +32,18 @@ SANITY = ["runs_with_loss_tridonic", "runs_with_loss_hasseb", "runs_with_return_
 BOUNDS = {"quick": "loss + <=1 further deviation; cancel + 0 further deviations + 300-send tail", "thorough": "loss + <=2 further deviations (2 callers), double loss; cancel + <=1 further deviation"}
 
 
+class SeqResult:
+    """Result of the 'seq' caller: both query answers must be the caller's own."""
+
+    def __init__(self, first, second):
+        self.first, self.second = first, second
+
+
 def build_cmd(kind, k):
     from dali.gear import general as gg, led
     from dali.address import GearShort
     a = GearShort(k)
-    return {"num": lambda: gg.QueryActualLevel(a), "off": lambda: gg.Off(a), "twice": lambda: gg.SetScene(a, k),
+    return {"num": lambda: gg.QueryActualLevel(a), "seq": lambda: gg.QueryActualLevel(a), "off": lambda: gg.Off(a), "twice": lambda: gg.SetScene(a, k),
             "dt": lambda: led.QueryFastFadeTime(a)}[kind]()
 
 
@@ -53,14 +60,28 @@ def make_hid_world(driver, kinds, exc_on, limit, ret, nloss=1, tail=0, start_seq
                 return ("value", (value >> 9) & 0x3F)          # tail queries: answer = own short address
             return ("none",)
         callers = []
+        gens = {}
         for i, c in enumerate(cmds):
-            async def co(w, c=c):
-                return await w.driver.send(c)
+            if kinds[i] == "seq":
+                # a three-command transaction through run_sequence (query, command, query)
+                def gen(c=c):
+                    a = yield c
+                    yield build_cmd("off", 40)
+                    b = yield c
+                    return SeqResult(c.response(a.raw_value) if a is not None else None, b)
+
+                async def co(w, i=i, gen=gen):
+                    gens[i] = gen()
+                    return await w.driver.run_sequence(gens[i])
+            else:
+                async def co(w, c=c):
+                    return await w.driver.send(c)
             callers.append(Caller(f"c{i + 1}", co, cancellable=(cancel and i == 0)))
         w = HidWorld(driver, bus, callers, start_seq=start_seq, reconnect_limit=limit, exceptions_on_send=exc_on,
                      loss=nloss > 0, returns=ret)
         w.loss_budget = nloss
         w.cmds = cmds
+        w.gens = gens
         w.timer_budget = 9
         w.tail_n = tail
         w.tail_results = []
@@ -112,7 +133,11 @@ def judge_hid(res, cfg, w, obs):
     ncallers = len(w.cmds)
     for i, (cmd, oc) in enumerate(zip(w.cmds, obs["callers"][:ncallers])):
         who = f"caller {i + 1} ({cfg['kinds'][i]})"
-        if oc[0] == "returned":
+        if oc[0] == "returned" and isinstance(oc[1], SeqResult):
+            vals = [None if (x is None or x.raw_value is None) else x.raw_value.as_integer for x in (oc[1].first, oc[1].second)]
+            if vals != [0x20 + i, 0x20 + i]:
+                add_violation(res, f"C17:{tag}:wrong-answer", f"{cfg}: {who} sequence got {vals}, own answer is {0x20 + i}", case)
+        elif oc[0] == "returned":
             r = oc[1]
             if cmd.response is None:
                 if r is not None:
@@ -136,6 +161,10 @@ def judge_hid(res, cfg, w, obs):
                 add_violation(res, f"C17:{tag}:caller-hangs", f"{cfg}: {who} still pending although the driver is connected at quiescence (events {w.trace[-10:]})", case)
         elif oc[0] == "cancelled" and not (cfg.get("cancel") and i == 0):
             add_violation(res, f"C17:{tag}:caller-cancelled", f"{cfg}: {who} cancelled by nobody", case)
+    import inspect
+    for gi, g in w.gens.items():
+        if obs["callers"][gi][0] in ("raised", "cancelled", "returned") and inspect.getgeneratorstate(g) == inspect.GEN_SUSPENDED:
+            add_violation(res, f"C17:{tag}:sequence-not-closed", f"{cfg}: the sequence of caller {gi + 1} was left suspended after {obs['callers'][gi][:2]}", case)
     if not pending:
         if obs["lock"]:
             add_violation(res, f"C17:{tag}:lock-held", f"{cfg}: transaction lock held at quiescence", case)
@@ -274,8 +303,10 @@ def shards(tier):
     out = []
     extra = 1 if tier == "quick" else 2
     for drv in ("tridonic", "hasseb"):
-        for kinds in ((), ("num",), ("off",), ("twice",), ("dt",), ("num", "off"), ("num", "num"), ("dt", "num"), ("num", "off", "num")):
+        for kinds in ((), ("num",), ("off",), ("twice",), ("dt",), ("seq",), ("num", "off"), ("num", "num"), ("dt", "num"), ("seq", "num"), ("num", "off", "num")):
             for exc_on in (True, False):
+                if "seq" in kinds and not exc_on:
+                    continue        # run_sequence never retries: only the exceptions-on contract applies to it
                 for limit in (None, 0, 1, 3):
                     for ret in (False, True):
                         if len(kinds) == 3 and (limit in (0, 3) or not exc_on):
